@@ -281,11 +281,22 @@ call_function(ostream &out, int indent_level, bool convert_result,
  */
 void FunctionRemap::
 write_orig_prototype(ostream &out, int indent_level, bool local, int num_default_args) const {
+  ostringstream strm;
   if (local) {
-    _cppfunc->output(out, indent_level, nullptr, false, num_default_args);
+    _cppfunc->output(strm, indent_level, nullptr, false, num_default_args);
   } else {
-    _cppfunc->output(out, indent_level, &parser, false, num_default_args);
+    _cppfunc->output(strm, indent_level, &parser, false, num_default_args);
   }
+
+  // The prototype is written into a C comment: make sure that a default
+  // argument such as "*/" cannot end that comment early.
+  string text = strm.str();
+  size_t p = 0;
+  while ((p = text.find("*/", p)) != string::npos) {
+    text.replace(p, 2, "* /");
+    p += 3;
+  }
+  out << text;
 }
 
 /**
